@@ -19,7 +19,19 @@ import bromelia.statemachine as SM
 import bromelia.setup as S
 
 T.random = types.SimpleNamespace(choice=lambda seq: seq[0])
-SM.time = types.SimpleNamespace(sleep=lambda s: None)
+CURRENT = [None]
+
+
+def _sleep(seconds):
+    """time.sleep as seen by the state machine: while the state-machine thread sleeps, the transport thread runs
+    (one pass of its real loop body) - that is what the SLEEP_TIMER pause before a forced close is for"""
+    node = CURRENT[0]
+    if node is not None and seconds >= 1 and node.assoc.transport is not None:
+        for _ in range(2):
+            pump(node.transport)
+
+
+SM.time = types.SimpleNamespace(sleep=_sleep)
 S.time = types.SimpleNamespace(sleep=lambda s: None)
 
 
@@ -163,6 +175,7 @@ class Node:
         self.psm = SM.PeerStateMachine(self.assoc)
         self.d._association, self.d._peer_state_machine = self.assoc, self.psm
         self.psm.is_running = True
+        CURRENT[0] = self
 
     _tick = staticmethod(loop_body_function(SM.PeerStateMachine._PeerStateMachine__start, "psm_tick"))
     _worker_step = staticmethod(loop_body_function(S.DiameterAssociation.recv_message_from_queue, "worker_step"))
